@@ -143,6 +143,7 @@ def main():
     ap.add_argument("--all-checks", action="store_true")
     ap.add_argument("--tests", action="store_true", help="also run the repo test-suite on each mutant")
     ap.add_argument("--seed", type=int, default=1)
+    ap.add_argument("--no-canaries", action="store_true")
     ap.add_argument("--out", default=os.path.join(ROOT, "sensitivity", "results.jsonl"))
     a = ap.parse_args()
     only = set(a.only.split(",")) if a.only else None
@@ -150,6 +151,8 @@ def main():
     allc = [f"C{i:02d}" for i in range(1, 17)]
     for name, kind, expected, edits in MUTANTS:
         if only and name not in only:
+            continue
+        if a.no_canaries and kind == "canary":
             continue
         fresh_scratch()
         err = apply(edits)
